@@ -155,7 +155,12 @@ def d_layout(ctx, fits):
         neg = isinstance(v, ast.UnaryOp) and isinstance(v.op, ast.USub)
         inner = v.operand if neg else v
         if not (isinstance(inner, ast.Call) and (fits.dotted(inner.func) or '').endswith('linalg.solve') and len(inner.args) == 2):
-            ctx.unrec(rule, key, '%s is not (-)solve(H, B)' % dn)
+            approx = [c for c in walk(v) if isinstance(c, ast.Call) and (fits.dotted(c.func) or '').rpartition('.')[2] in ('lstsq', 'pinv', 'pinvh')]
+            if approx:
+                ctx.violated(rule, key, '%s is computed with `%s`: a singular-value cut-off (relative to the largest singular value) removes the parameter directions of the Hessian once its '
+                             'x-block 2/dx^2 dwarfs the parameter block - the implicit-function theorem needs the exact solution of H d = -B' % (dn, unparse(approx[0].func)), fits.loc(dv[0]))
+            else:
+                ctx.unrec(rule, key, '%s is not (-)solve(H, B)' % dn)
             continue
         ctx.check('C08-D2', 'fits.py:total_least_squares#ift-sign-%s' % which, neg, '%s = -H^-1 B' % dn, '%s = %s has the wrong sign' % (dn, unparse(v)), fits.loc(dv[0]))
         H, B = inner.args
